@@ -60,7 +60,7 @@ P = {
    text="Maps with strictly increasing values (all subsets of the 15-key universe x gap patterns; random shapes) are queried with every stored value, +/-1, 0, u64::MAX and random values; get_key/get_key_into (on a junk-prefilled buffer) must equal the model inverse; maps of up to 4000 keys with 256-way nodes and values above 2^63 included.",
    note="Non-monotone maps never generated (documented unspecified).", ref="5/C16"),
  "C17": dict(level="exploration", tech="exhaustive (q,d,k) over an 8-character multi-byte alphabet against a DP edit distance; proptest beyond",
-   text="All queries and keys of <= 3 characters over {a,e-acute,e-circumflex,2 snowman-block symbols,2 emoji,musical symbol} x d in 0..2 are decided by the automaton and by an O(|q||k|) DP over chars; Set::search results, dead-state soundness and state limits (via the hook) are checked too, as are all |q|,|k| <= 2 over 16 code points at the UTF-8 encoding boundaries, queries of up to 26 characters with d <= 4, distances 3..9, 100, 253..258, 300, 511, 512, 1000 with queries of <= 3 characters, agreement of new() with the default limit of 10 000 states, and sets that also hold byte strings that are not UTF-8 (never returned: they have no edit distance in scalar values).",
+   text="All queries and keys of <= 3 characters over {a,e-acute,e-circumflex,2 snowman-block symbols,2 emoji,musical symbol} x d in 0..2 are decided by the automaton and by an O(|q||k|) DP over chars; Set::search results, dead-state soundness and state limits (via the hook) are checked too, as are all |q|,|k| <= 2 over 16 code points at the UTF-8 encoding boundaries, queries of up to 26 characters with d <= 4, distances 3..9, 100, 253..258, 300, 511, 512, 1000 with queries of <= 3 characters, agreement of new() with the default limit of 10 000 states, and sets that also hold byte strings that are not UTF-8 (outside the domain: whether they are returned is recorded only; the valid keys returned must be exactly those within the distance).",
    note="Trusted: the DP edit distance; |k| <= 3 (4 thorough) exhaustive, random beyond.", ref="5/C17"),
  "C18": dict(level="exploration", tech="enumeration/proptest of automaton expression trees against an explicit reference DFA compiler (products, latch, complement) up to the pumping bound",
    text="Expression trees to depth 3 over Str, Subsequence, AlwaysMatch and every small component DFA with every sound hint assignment are built with the crate's combinators and compared state-by-state with a reference DFA: acceptance of every string up to |Q|+1 over class representatives, can_match=false only if no accepting continuation, will_always_match=true only if all continuations accept; random trees to depth 4, patterns of 256..300 bytes, and the bytes 0x00/0x7f/0x80/0xff always part of the alphabet.",
